@@ -673,3 +673,8 @@ mod tests {
         assert_approx_eq!(projected, expected, epsilon = 1e-6);
     }
 }
+
+// Verification hook (inert unless built by `cargo kani`): harnesses for the private items of this module.
+#[cfg(kani)]
+#[path = "/verif/kani/incrate/h_spectrum.rs"]
+mod verif_kani;
